@@ -61,7 +61,7 @@ def d1_bundling_typestate(ctx, rm: REModel):
         ctx.ob("C15.D1-rejected-create-has-no-effect", cname(cr, s), w is None,
                "" if w is None else f"`{A.head(s)}` runs before the 'bundle already open' rejection: a create that is refused (and caught by the plan) empties / renames the bundle "
                "that is open, and its save emits an event without the readings taken so far", nontrivial=True, witness=w, where=where(cr, s))
-    ctx.ob("C15.D1-rejected-create-has-no-effect", cname(cr, None, "writes to the bundle's collected state found"), n_eff >= 3, f"{n_eff} site(s)", where=where(cr, cr.node))
+    ctx.require(n_eff >= 3, f"anchor vanished: RunBundler.create no longer writes the bundle's collected state where the rule looks ({n_eff} site(s) found)")
     for nm in ("save", "drop"):
         f = rm.b(nm)
         g = q.cfg(f, q.quiet_policy(repo))
